@@ -367,6 +367,9 @@ def v1_gen_items(rng, depth, st):
                 items.append({rng.choice(["stop", "abort"]): True})
             elif k == 14:
                 items.append({"return": True})
+            elif k == 15 and rng.random() < 0.5:
+                items.append({"meta": {"priority": rng.choice([1.5, 2, 0.5])}})     # `priority N` written inside a body
+                st["nested_meta"] = st.get("nested_meta", 0) + 1
             elif k == 15:
                 items.append({"set": "$v = " + rng.choice(["1", "...", "$v + 1"])})
             elif k in (16, 17):
@@ -430,16 +433,21 @@ def v1_gen_source(rng, st):
                     lines.append(f"{pad}continue")
                 elif k == 10:
                     lines.append(f"{pad}{rng.choice(['stop', 'return', 'pass'])}")
+                elif k == 11 and rng.random() < 0.5:
+                    lines.append(f"{pad}priority {rng.choice(['1.5', '2', '0.5'])}")
+                    st["src_nested_priority"] = st.get("src_nested_priority", 0) + 1
                 elif k == 11:
                     lines.append(f"{pad}do sub")
                 else:
                     lines.append(f"{pad}bot ok")
 
-    lines.append("define flow gen")
+    lines.append(rng.choice(["define flow gen", "define flow gen", "define subflow gen"]))
+    if rng.random() < 0.4:
+        lines.append("  priority 2")
     lines.append("  user start")
     block(1, rng.choice([1, 2, 2, 3]), False)
     if rng.random() < 0.3:
-        lines.insert(2, "  label top")
+        lines.insert(lines.index("  user start") + 1, "  label top")
         lines.append("  goto top")
         st["src_goto"] += 1
     return "\n".join(lines) + "\n"
@@ -506,6 +514,19 @@ def v1_inline_test_sources():
                 out.append((os.path.relpath(f, C.REPO) + f"#{k}", node.value))
                 k += 1
     return out
+
+
+def v1_runtime_elements(fid, elements):
+    """What the Colang 1.0 RUNTIME executes for a compiled flow: the real RuntimeV1_0._load_flow_config
+    (last step of loading; handles the meta element) run on a copy of the flow."""
+    from types import SimpleNamespace
+
+    from nemoguardrails.colang.v1_0.runtime.runtime import RuntimeV1_0
+
+    stub = SimpleNamespace(flow_configs={})
+    RuntimeV1_0._load_flow_config(stub, {"id": fid or "f", "elements": copy.deepcopy(elements)})
+    cfgs = list(stub.flow_configs.values())
+    return cfgs[0].elements if cfgs else None
 
 
 def v1_sig(problems):
@@ -1185,6 +1206,37 @@ def v2_coq_stmts(tree):
     return C.coq_list(out)
 
 
+# ---- every statement kind x every group shape x every member kind x every position, INCLUDING the
+#      combinations the unchanged loader rejects: a compiled flow must be "rejected by the loader OR closed"
+
+def v2_gen_exotic():
+    ops = ["send", "match", "start", "stop", "activate", "deactivate", "await"]
+    shapes = ["{0}", "{0} and {1}", "{0} or {1}", "({0} and {1}) or {2}", "{0} or ({1} and {2})", "{0} and ({1} or {2})",
+              "({0} or {1}) and ({2} or {0})"]
+    kinds = {
+        "event": ["EvA()", "EvB()", "EvC()"],
+        "flow": ["a", "b", "c"],
+        "action": ['UtteranceBotAction(script="x")', 'TimerBotAction(timer_name="t", duration=1.0)', 'UtteranceBotAction(script="y")'],
+        "mixed": ["a", "EvB()", 'UtteranceBotAction(script="x")'],
+    }
+    contexts = {
+        "top": "  {s}\n",
+        "if": "  if $v < 1\n    {s}\n  else\n    $v = 1\n    {s}\n",
+        "while": "  while $v < 2\n    $v = $v + 1\n    {s}\n    break\n",
+        "when": "  when EvX()\n    {s}\n  or when a\n    {s}\n",
+        "when-else": "  when EvX()\n    $v = 1\n  else\n    {s}\n",
+    }
+    out = []
+    for op in ops:
+        for si, shape in enumerate(shapes):
+            for kn, atoms in kinds.items():
+                stmt = op + " " + shape.format(*atoms)
+                for cn, ctx in contexts.items():
+                    out.append((f"exotic:{op}:{si}:{kn}:{cn}",
+                                FRAG_PRELUDE + "flow main\n  $v = 0\n" + ctx.format(s=stmt) + "  send End()\n  match Never()\n"))
+    return out
+
+
 # ---- flows added at RUNTIME (AddFlowsAction -> RuntimeV2_x._add_flows_action): the other loader
 
 ADD_BASE = (FRAG_PRELUDE + "flow a ok\n  match EvA()\nflow b ok\n  match EvB()\nflow a fail\n  match EvF()\n  abort\n"
@@ -1501,8 +1553,8 @@ def run(tier, seed, replay=None):
             v1_cases.append(("replay:" + fid, items))
     for _ in range(n_v1_trees):
         its = v1_gen_items(rng, rng.choice([1, 2, 2, 3, 3, 4]), st1)
-        if rng.random() < 0.15:
-            its = [{"meta": {"subflow": True}}] + its
+        if rng.random() < 0.3:
+            its = [{"meta": rng.choice([{"subflow": True}, {"priority": 2}])}] + its
         v1_cases.append(("gen-tree", its))
     src_fail = 0
     for _ in range(n_v1_src):
@@ -1567,18 +1619,30 @@ def run(tier, seed, replay=None):
                                                   {"kind": "v1-items", "items": items, "origin": origin, "problems": probs[:5]}))
             off_terms.append(v1_coq_elems(obs))
             off_kept.append((origin, items, obs))
-            if obs and obs[0]["t"] == "meta":
-                # runtime.py drops a leading meta element (elements = elements[1:]): the flow that
-                # actually runs is the tail, its offsets must stay inside as well
-                tail = obs[1:]
-                bad_tail = v1_oracle(tail)
-                v1_meta_tails += 1
-                if bad_tail and not bad:      # a defect of the meta removal only (otherwise already reported above)
-                    bad = bad_tail
-                    out.findings.append(C.Finding(v1_sig(bad) + ":after-meta-removal", f"offset leaves the flow once the meta element is dropped: {bad[0]} ({origin})",
-                                                  {"kind": "v1-items", "items": items, "origin": origin, "problems": bad[:5], "elements": tail}))
-                off_terms.append(v1_coq_elems(tail))
-                off_kept.append((origin + ":tail", items, tail))
+            # what the RUNTIME executes (RuntimeV1_0._load_flow_config: drops the leading meta element ...):
+            # the same closedness conditions must hold for it
+            try:
+                rt_elements = v1_runtime_elements("f", r[1])
+            except Exception as e:
+                rt_elements = None
+                out.findings.append(C.Finding("v1:runtime-load-raises", f"_load_flow_config raised {type(e).__name__}: {str(e)[:100]} ({origin})",
+                                              {"kind": "v1-items", "items": items, "origin": origin}))
+            if rt_elements is not None:
+                rt_obs = v1_obs(rt_elements)
+                if rt_obs != obs:
+                    v1_meta_tails += 1
+                    bad_rt = v1_oracle(rt_obs)
+                    if bad_rt and not bad:      # otherwise already reported on the compiled flow
+                        out.findings.append(C.Finding(v1_sig(bad_rt) + ":as-executed-by-runtime",
+                                                      f"offset leaves the flow the runtime executes (after _load_flow_config): {bad_rt[0]} ({origin})",
+                                                      {"kind": "v1-items", "items": items, "origin": origin, "problems": bad_rt[:5], "elements": rt_obs}))
+                        runs, probs = v1_slide_probe(rng, rt_elements)
+                        v1_slide_runs += runs
+                        if probs:
+                            out.findings.append(C.Finding("v1:slide-raises:as-executed-by-runtime", f"real slide() failed on the runtime's flow: {probs[0]} ({origin})",
+                                                          {"kind": "v1-items", "items": items, "origin": origin, "problems": probs[:5]}))
+                    off_terms.append(v1_coq_elems(rt_obs))
+                    off_kept.append((origin + ":runtime", items, rt_obs))
         # model side
         try:
             tree = v1_tree_of_items(items)
@@ -1645,6 +1709,10 @@ def run(tier, seed, replay=None):
         for rel, content in v2_inline_test_sources():
             v2_sources.append(("inline:" + rel, content))
             n_inline += 1
+    exotic = [] if rp else v2_gen_exotic()
+    if quick and exotic:
+        exotic = [x for k, x in enumerate(exotic) if (k + seed) % 2 == 0 or ":activate:" in x[0] or ":deactivate:" in x[0] or ":stop:" in x[0]]
+    v2_sources += exotic
     gen_programs = []
     for i in range(n_v2_gen):
         src = v2_gen_program(rng, st2)
@@ -1672,8 +1740,13 @@ def run(tier, seed, replay=None):
                 ok_flows, rej = v2_expand_source(src, origin)
             except Exception:
                 rejected_files += 1     # the loader rejects the file (syntax error, not 2.x ...)
+                if origin.startswith("exotic:"):
+                    dist["v2_exotic_rejected_by_parser"] = dist.get("v2_exotic_rejected_by_parser", 0) + 1
                 continue
             rejected_flows += len(rej)
+            if origin.startswith("exotic:"):
+                k_ = "v2_exotic_main_rejected_by_loader" if any(f == "main" for f, _ in rej) else "v2_exotic_main_compiled"
+                dist[k_] = dist.get(k_, 0) + 1
             for fid, cfg in ok_flows:
                 model = v2_abstract(cfg.elements, consts, cfg.element_labels)
                 prob = v2_oracle(cfg, consts)
@@ -1733,7 +1806,7 @@ def run(tier, seed, replay=None):
 
     def _rank(kv):
         (origin, fid), (prob, sig) = kv
-        cls = 0 if origin.startswith(("corpus", "replay")) else 1 if origin.startswith("shipped") else 2
+        cls = 0 if origin.startswith(("corpus", "replay")) else 1 if origin.startswith(("shipped", "exotic")) else 2
         return (cls, len(src_of[origin]))
 
     for (origin, fid), (prob, sig) in sorted(oracle_problems.items(), key=_rank):
@@ -1753,6 +1826,7 @@ def run(tier, seed, replay=None):
         added_sources.append(("replay-added", rp["source"]))
     n_added = 0 if rp else (200 if quick else 3000)
     pool = [(o, s_) for o, s_ in v2_sources if o.startswith(("frag:", "gen:"))]
+    added_sources += [("added:" + o, v2_added_source(s_)) for o, s_ in exotic[::7]]
     for o, s_ in pool[:: max(1, len(pool) // max(1, n_added))][:n_added]:
         added_sources.append(("added:" + o, v2_added_source(s_)))
     a_terms, a_kept = [], []
@@ -1880,7 +1954,7 @@ def run(tier, seed, replay=None):
             "v1_generated_trees": n_v1_trees, "v1_generated_sources": n_v1_src, "v1_sources_rejected_by_parser": src_fail,
             "v1_shipped_files_compiled": len(shipped_v1), "v1_shipped_files_rejected_by_parser": shipped_v1_rejected,
             "v1_inline_test_programs_compiled": inline_v1, "v1_inline_test_programs_rejected_by_parser": inline_v1_rejected,
-            "v1_flows_compared": len(terms), "v1_flows_checked_after_meta_removal": v1_meta_tails, "v1_flows_offsets_checked": len(off_terms), "v1_results": v1_results,
+            "v1_flows_compared": len(terms), "v1_flows_changed_by_runtime_loader_and_rechecked": v1_meta_tails, "v1_flows_offsets_checked": len(off_terms), "v1_results": v1_results,
             "v1_outside_model_vocabulary": v1_unsupported, "v1_constructs": st1,
             "v2_shipped_files": n_shipped_v2, "v2_inline_test_programs": n_inline, "v2_generated_programs": n_v2_gen,
             "v2_files_rejected_by_loader": rejected_files, "v2_flows_rejected_by_loader": rejected_flows,
